@@ -408,6 +408,7 @@ func (d *DNSFilter) WriteDiskConfig(c *Config) {
 	defer d.conf.filtersMu.Unlock()
 
 	*c = *d.conf
+	c.BlockedServices = d.conf.BlockedServices.Clone()
 	c.Rewrites = cloneRewrites(c.Rewrites)
 	c.Filters = slices.Clone(d.conf.Filters)
 	c.WhitelistFilters = slices.Clone(d.conf.WhitelistFilters)
